@@ -116,7 +116,10 @@ impl<U: Clone + 'static> OutBuf<U> for Array1<U> {
             return vec![];
         }
         let a = step.unsigned_abs();
-        let n_base = off + len * a + 1;
+        // room behind the lane for `len` more cells: a writer that ignores the stride of a reversed view
+        // (pointer of slot 0 plus idx) then lands in foreign cells of the backing storage, where it is seen as
+        // a wrong result, instead of corrupting the heap
+        let n_base = off + len * a.max(2) + 1;
         let audit: Option<U> = fill_override::<U>();
         let mut base: Array1<MaybeUninit<U>> = Array1::from_shape_fn(n_base, |_| MaybeUninit::new(audit.clone().unwrap_or_else(fill)));
         {
